@@ -22,3 +22,17 @@ PROPS["C05"] = {
         "synced bytes survive a crash; the unsynced suffix may be cut at any byte but is not reordered",
     ],
 }
+
+HOOKS = {
+    "guard": "none (no source hooks: every unit is extracted from /repo's working tree into /verif/.cache on each run)",
+    "enable": "not needed; checks read /repo's sources directly",
+    "baseline_off_cmd": "cd /repo && cargo nextest run --workspace --no-fail-fast --tool-config-file pb:/w/lib/nextest.toml --profile pb --test-threads 8 --offline",
+    "source_commits": [],
+    "add_only": True,
+}
+
+NOT_APPLICABLE = {
+    "C10": "purely a statement about interleavings of two requests on one shared SessionContext; sequentially it is trivial, Kani has no threads and Verus would need the engine rewritten with its permission types (a model, not the code) — no contract on the real text can decide it (DESIGN.md §9)",
+}
+
+NOTES = "Exit codes: 0 all obligations discharged; 1 VIOLATION (a named obligation failed); 2 UNDECIDED (lost anchor / unsupported construct / solver limit — never reported as a violation)."
